@@ -14,8 +14,9 @@ PROP = {
             "each placement takes ONE spelling of the kind, drawn at random, and ONE of the six combinations (with / without a path) x "
             "(start line 0, 1, 7), cycling through them (thorough: all six for about one placement in eight); each placement is a `render` case compared with "
             "the model, and the real result is checked against the placement: error and no output (Render and RenderString), LineNumber, Path, "
-            "kind of Cause, message - except that for the two kinds that fail INSIDE an included file (file with an error inside, nesting limit) "
-            "the template always has a path and the oracle does not check LineNumber (the line is one of the FILE; it is compared with the model only); "
+            "kind of Cause, message - for the two kinds that fail INSIDE an included file (file with an error inside, nesting limit) "
+            "the template always has a path; for a file with an error inside the oracle checks LineNumber = the include tag's line + the newlines of the FILE before its failing tag or object "
+            "(run_error_located_at_token; the four failing files of the layout, whose positions are known), at the nesting limit it does not check LineNumber (a line 100 levels in; it is compared with the model only); "
             "non-trivial = distinct (kind, depth, line, path/start) with an error result",
     "trusted_base": COMMON_TB + ["the placement generator's own bookkeeping of where it put the construct (offset -> line)"],
     "assumptions": ["an error inside an included file carries the line of the failing construct counted from the include tag's line and the "
@@ -78,7 +79,7 @@ TEXT = {
               '(fault_site_in_tree, located_node_fault_sites in Proofs.C20Located: audited under C20, not under this property). '
               'Tie: the `errloc` stream places each of its 33 kinds of failing construct at every '
               'nesting depth 0..6, one (path, start line) combination per placement, compares model and real engine (kind, line, path, cause) and '
-              'checks the line against the known position (not for the two kinds that fail inside an included file: there the oracle checks error, path, kind, cause and message, and the line only through the model).'),
+              'checks the line against the known position - for an error inside an included file: the include tag\'s line plus the newlines of the file before the failing construct, as run_error_located_at_token says; not at the nesting limit: there the oracle checks error, path, kind, cause and message, and the line only through the model).'),
     "design_ref": 'DESIGN.md 6 C07',
     "note": NOTE + ('render_error_line_in_tree and run_error_at_tag_or_object are existential (the line of SOME node resp. SOME tag or object token); '
               'the determinate statement is run_fails_at_firstFailure. firstFailure reads the DECISIONS of the walk (which branch is taken, '
